@@ -13,7 +13,13 @@ FIXED = ["v, [1, .., 2]", "v, [..]", "v, [.., 9]", "v, [1, 2]", "v, [1]", "v, [_
          "v, == foo.bar", "v, S { xs: [1, 2, ..], .. }", "v, #{ \"a\": 1 }", "v, E::V(1)", "v, E::W",
          # punctuation that belongs to the written expression: the comma of a one-element tuple, trailing commas in calls / arrays / macros
          "v, == (5,)", "v, == Some((5,))", "v, != (9u8,)", "v, #{ (1,): 2, .. }", "v, < f((1,), [2,],)", "v, == vec![1, 2,]", "v, S { t: == (x,), .. }",
-         "v, == None::<(u8,)>", "v, =~ mk((\"a\",))", "v, (7,)", "v, |cl_x| cl_x == (1,)"]
+         "v, == None::<(u8,)>", "v, =~ mk((\"a\",))", "v, (7,)", "v, |cl_x| cl_x == (1,)",
+         # a quote character that does not delimit an ordinary string (inside a raw string, as a char or byte literal, escaped, after
+         # an escaped backslash, a lifetime's tick) followed by a string in which the spacing is part of what was written
+         "v, == f('\"', \"a  b\")", "v, == r#\"say \"hi  there\"\"#", "v, != g(b'\"', \"x   y\")", "v, == (r\"\\\", \"a  b\")", "v, == ('\\'', \"a  b\")",
+         "v, == (\"\\\\\", \"c  d\")", "v, == (b\"\\\"\", \"e  f\")", "v, == (\"\\\"\", \"g  h\")", "v, #{ f('\"', \"a  b\"): 1, .. }",
+         "v, #{ r#\"k\"1\"#: == \"p  q\", .. }", "v, == h::<'static>(\"i  j\")", "v, S { a: == '\"', b: == \"k  l\", .. }",
+         "v, == (r##\"a\"#b\"##, \"m  n\")", "v, =~ lk('\"', \"o  p\")", "v, == \"q\\\"  r\"", "v, == (\"s\\\\\", 't', \"u  v\")"]
 
 
 def squeeze(s):
